@@ -1,6 +1,7 @@
 import IpamVerif.System
 import IpamVerif.Props.C17
 import IpamVerif.Safety
+import IpamVerif.Restart
 /-!
 # C06 — a ClusterCIDR is released only when no node depends on it, then never used
 
@@ -252,5 +253,50 @@ theorem cc_item_keeps_every_holder_reserved (s : Sys) (hs : Safety.Inv s) (name 
       ∃ i, Safety.Claims (step s (.procCC name w)).1.alloc y.name i ∧
         ∀ cd ∈ y.cidrs, Safety.UsedAt (step s (.procCC name w)).1.alloc i cd :=
   fun y hy hd h0 => (Safety.inv_step hs _ hf).held y (List.mem_append_left _ hy) h0 (Or.inl hd)
+
+/-- **"only when no existing node depends on it"**, by geometry: in a state satisfying the invariant of `Safety.lean`,
+when an item sends the Update that removes the controller's finalizer, either nothing was mapped for the object, or
+the entry that is unmapped contains, in none of its ranges, a pod CIDR of an existing node that is not being deleted —
+whether or not the controller has anything recorded for that node -/
+theorem released_ranges_hold_no_live_cidr (s : Sys) (hs : Safety.Inv s) (o : CCObj) (w : WOut)
+    (hw : (reconcileDelete s o w).2.ccWrites ≠ []) :
+    (∀ c ∈ s.alloc.ccs, c.name = o.name → ∀ reqs, selectorOf o.spec.sel = some reqs → c.key ≠ printSel reqs) ∨
+    ∃ pre c post, s.alloc.ccs = pre ++ c :: post ∧ c.name = o.name ∧ (reconcileDelete s o w).1.alloc.ccs = pre ++ post ∧
+      ∀ v ∈ s.api.nodes, v.deleting = false → ∀ cd ∈ v.cidrs, ∀ p, c.pool cd.fam = some p → cd.Disjoint p.geo.range := by
+  obtain ⟨_, reqs, hsel, hcase⟩ := finalizer_removed_only_without_dependants s o w hw
+  rcases hcase with hnone | ⟨pre, c, post, e1, k1, k2, k3, k4⟩
+  · left
+    intro c hc hn reqs' hsel' hk
+    rw [hsel] at hsel'; cases hsel'
+    exact hnone c hc ⟨hk, hn⟩
+  · right
+    refine ⟨pre, c, post, e1, k2, k4, ?_⟩
+    intro v hv hd cd hcd p hp
+    have hj : s.alloc.get? pre.length = some c := by
+      unfold Alloc.get?; rw [e1]; simp
+    have hne : v.cidrs ≠ [] := by intro h; rw [h] at hcd; cases hcd
+    obtain ⟨i, hci, hu⟩ := hs.held v (List.mem_append_left _ hv) hne (Or.inl hd)
+    have hij : i ≠ pre.length := by
+      rintro rfl
+      obtain ⟨c', hg', hx⟩ := hci
+      rw [hj] at hg'; cases hg'
+      rw [k3] at hx; cases hx
+    obtain ⟨ci, pi, hgi, hpi, hsub, _⟩ := Safety.usedAt_sub_range hs.wf (hu cd hcd)
+    have hdis := hs.rd i pre.length ci c cd.fam pi p hgi hj hpi hp hij
+    have := cd.size_pos
+    unfold Cidr.Sub at hsub
+    unfold Cidr.Disjoint at hdis ⊢
+    omega
+
+/-- ... in every state a history of the fragment with restarts (`Restart.Frag3`) can reach: a restart does not make
+the controller forget who depends on a ClusterCIDR -/
+theorem release_is_safe_after_any_history_with_restarts (s0 : Sys) (h0 : Restart.Inv3 s0) (evs : List Ev)
+    (hf : Restart.Frag3All s0 evs) (o : CCObj) (w : WOut)
+    (hw : (reconcileDelete (run s0 evs) o w).2.ccWrites ≠ []) :
+    (∀ c ∈ (run s0 evs).alloc.ccs, c.name = o.name → ∀ reqs, selectorOf o.spec.sel = some reqs → c.key ≠ printSel reqs) ∨
+    ∃ pre c post, (run s0 evs).alloc.ccs = pre ++ c :: post ∧ c.name = o.name ∧
+      (reconcileDelete (run s0 evs) o w).1.alloc.ccs = pre ++ post ∧
+      ∀ v ∈ (run s0 evs).api.nodes, v.deleting = false → ∀ cd ∈ v.cidrs, ∀ p, c.pool cd.fam = some p → cd.Disjoint p.geo.range :=
+  released_ranges_hold_no_live_cidr _ (Restart.inv3_run evs s0 h0 hf).inv o w hw
 
 end Ipam.C06
